@@ -100,7 +100,7 @@ pub fn build_variant(v: &Variant) -> Result<PathBuf, (bool, String)> {
     for (k, val) in v.envs {
         c.env(k, val);
     }
-    let out = c.output().map_err(|e| (false, format!("cannot run cargo: {}", e)))?;
+    let out = crate::engine::run_external(&mut c).map_err(|e| (false, format!("cannot run cargo: {}", e)))?;
     if out.status.success() {
         Ok(variant_bin(v))
     } else {
@@ -120,7 +120,7 @@ fn run_digest(bin: &PathBuf, corpus: &str, cell: Option<u8>, race: bool) -> Resu
         c.arg("--race");
     }
     c.arg(corpus).stderr(Stdio::piped());
-    let out = c.output().map_err(|e| format!("{}: {}", bin.display(), e))?;
+    let out = crate::engine::run_external(&mut c).map_err(|e| format!("{}: {}", bin.display(), e))?;
     if !out.status.success() {
         return Err(format!("{} exited with {:?}: {}", bin.display(), out.status, String::from_utf8_lossy(&out.stderr).lines().last().unwrap_or("")));
     }
@@ -407,7 +407,7 @@ fn lattice(r: &Runner) {
                 if dis_ct {
                     c.env("CARGO_CFG_HTTPARSE_DISABLE_SIMD_COMPILETIME", "1");
                 }
-                let res = match c.output() {
+                let res = match crate::engine::run_external(&mut c) {
                     Ok(o) if o.status.success() => Ok(()),
                     Ok(o) => {
                         let err = String::from_utf8_lossy(&o.stderr).to_string();
